@@ -310,6 +310,19 @@ class Built:
         self.ensure = lambda name: None
 
 
+class _quiet:
+    """Deprecated spellings of public APIs warn; the warning is not what is being checked."""
+
+    def __enter__(self):
+        import warnings
+        self._cm = warnings.catch_warnings()
+        self._cm.__enter__()
+        warnings.simplefilter("ignore")
+
+    def __exit__(self, *a):
+        return self._cm.__exit__(*a)
+
+
 def _callback_fault(B):
     B.vcount += 1
     f = B.fault
@@ -426,7 +439,7 @@ def make_field(B, sd, node, tag):
         val = o.get("value")
         f = cc.VirtualField(lambda cfg, _v=val: _v, sensitive=bool(o.get("sensitive")))
     elif k == "method":
-        f = cc.InstanceMethodField(lambda cfg, *a, **kws: ("method", len(a)))
+        f = cc.InstanceMethodField(lambda cfg, *a, **kws: ("method", len(a), type(cfg).__name__))
     else:
         raise ValueError("unknown kind %r" % k)
     B.fields[tag] = f
@@ -462,7 +475,12 @@ def _populate(B, sd, schema, node, prefix):
         else:
             schema._add_field(f["key"], make_field(B, sd, f, tag))
     for vid in node.get("validators", ()):
-        cc.validator(schema)(_schema_validator(B, vid, prefix.rstrip(".") or "<root>"))
+        fn = _schema_validator(B, vid, prefix.rstrip(".") or "<root>")
+        if len(prefix) % 2:
+            with _quiet():
+                schema.validator(fn)          # the older spelling of the same public API
+        else:
+            cc.validator(schema)(fn)
 
 
 def build(sd):
@@ -484,7 +502,11 @@ def build(sd):
         if name in sd.get("shared", {}):
             B.shared[name] = sch
         else:
-            B.types[name] = cc.make_type(sch, name, module="simtypes", key_filename=sd["types"][name].get("key_filename"))
+            if int(name[1:]) % 2:
+                B.types[name] = cc.make_type(sch, name, module="simtypes", key_filename=sd["types"][name].get("key_filename"))
+            else:
+                with _quiet():
+                    B.types[name] = sch.make_type(name, module="simtypes", key_filename=sd["types"][name].get("key_filename"))
         building.discard(name)
 
     B.ensure = ensure
